@@ -396,11 +396,11 @@ class PointJacobi(object):
         """add points when both Z1 and Z2 equal 1"""
         # after:
         # http://hyperelliptic.org/EFD/g1p/auto-shortw-jacobian.html#addition-mmadd-2007-bl
-        H = X2 - X1
+        H = (X2 - X1) % p
         HH = H * H
         I = 4 * HH % p
         J = H * I
-        r = 2 * (Y2 - Y1)
+        r = 2 * (Y2 - Y1) % p
         if not H and not r:
             return self._double_with_z_1(X1, Y1, p, self.__curve.a())
         V = X1 * I
@@ -473,9 +473,9 @@ class PointJacobi(object):
     def _add(self, X1, Y1, Z1, X2, Y2, Z2, p):
         """add two points, select fastest method."""
         if not Y1 or not Z1:
-            return X2, Y2, Z2
+            return X2, Y2 % p, Z2
         if not Y2 or not Z2:
-            return X1, Y1, Z1
+            return X1, Y1 % p, Z1
         if Z1 == Z2:
             if Z1 == 1:
                 return self._add_with_z_1(X1, Y1, X2, Y2, p)
@@ -680,7 +680,9 @@ class PointJacobi(object):
     def __neg__(self):
         """Return negated point."""
         x, y, z = self.__coords
-        return PointJacobi(self.__curve, x, -y, z, self.__order)
+        return PointJacobi(
+            self.__curve, x, -y % self.__curve.p(), z, self.__order
+        )
 
 
 class Point(object):
@@ -778,7 +780,12 @@ class Point(object):
         # From X9.62 D.3.2:
 
         e3 = 3 * e
-        negative_self = Point(self.__curve, self.__x, -self.__y, self.__order)
+        negative_self = Point(
+            self.__curve,
+            self.__x,
+            -self.__y % self.__curve.p(),
+            self.__order,
+        )
         i = leftmost_bit(e3) // 2
         result = self
         # print_("Multiplying %s by %d (e3 = %d):" % (self, other, e3))
